@@ -235,17 +235,30 @@ Definition KeyStable (ty : N * N) (c : mtree) (kc : core) : Prop :=
 
 Definition ing (g : N) (c : mtree) : bool := set_mem g (mfiles c).
 
+(* a split point with sequence content: the sub-elements are of pairwise different kinds, every two kinds are ordered by
+   a sequence group of the type, and the master lists them in that (schema) order *)
+Definition SeqKids (ty : N * N) (ks : list mtree) : Prop :=
+  content_mode T ty = Val MSequence /\
+  exists idx : mtree -> list N,
+    (forall c, In c ks -> exists sub, find_sub_element T ty (m_name c) v = Val (Some (sub, idx c))) /\
+    (forall c x, In c ks -> In x ks -> c <> x ->
+       exists g gd, find_common_group T ty (idx c) (idx x) = Val g /\ dt T g = Val gd /\ dt_mode gd = MSequence) /\
+    (forall l1 c l2, ks = l1 ++ c :: l2 ->
+       (forall x, In x l1 -> lex_cmp (idx c) (idx x) = Gt) /\ (forall x, In x l2 -> lex_cmp (idx c) (idx x) = Lt)).
+
 Definition NodeOK (ty : N * N) (content : list (mtree + Parser.cdata)) (files : list N) : Prop :=
   (forall c, In c (kids content) -> incl (mfiles c) files) /\
   (exists sp, splittable_in T ty v = Val sp) /\
   NoDup (kids content) /\
   ((* a leaf: character data only *)
    kids content = [] \/
-   (* sub-elements only: all of them in the files of the parent, or a bag (unnamed, any subset, any order) *)
+   (* sub-elements only: all of them in the files of the parent, or a bag (unnamed, any subset, any order), or a
+      splittable sequence (any subset, schema order) *)
    (content = map inl (kids content) /\
     ((~ bag_ty ty /\ forall c, In c (kids content) -> mfiles c = files) \/
      (bag_ty ty /\ splittable_in T ty v = Val true /\
-      forall c, In c (kids content) -> exists r, find_sub_element T ty (m_name c) v = Val (Some r))))) /\
+      forall c, In c (kids content) -> exists r, find_sub_element T ty (m_name c) v = Val (Some r)) \/
+     (~ bag_ty ty /\ splittable_in T ty v = Val true /\ SeqKids ty (kids content))))) /\
   exists kcore : mtree -> core,
     (forall c, In c (kids content) -> KeyStable ty c (kcore c)) /\
     (forall c1 c2, In c1 (kids content) -> In c2 (kids content) -> cmatch (kcore c1) (kcore c2) = true -> c1 = c2) /\
